@@ -640,3 +640,87 @@ Proof.
   - intros sid h v ms e _ _ _ _ _ _. exact I.
   - split; assumption.
 Qed.
+
+(* after any history every storage satisfies the (weak) invariant *)
+Theorem run_invariant orcs os : ndr (hist_uids os) ->
+  exists G, WJ anyP (uw_stores (fst (urun orcs uw_init [] os))) G.
+Proof.
+  intros H.
+  destruct (urun_ok anyP I os orcs uw_init (NM.empty (NM.t tok)) [] [] (LJ_init anyP)) as [G' [used' [A _]]].
+  - split; [assumption|intros u _ _ []].
+  - apply orphan_run_any.
+  - exists G'. apply (LJ_inv _ _ _ _ _ A).
+Qed.
+
+(* ------------------------------------------------------------------ *)
+(* what a faulting delete_components leaves behind *)
+
+Section Purge.
+Variable P : tok -> Prop.
+Hypothesis P_default : P default_tok.
+
+Definition mask_le (ids : list N) (ms ms' : mstore) : Prop :=
+  (forall i, NS.mem i (ms_mask ms') = true -> NS.mem i (ms_mask ms) = true) /\
+  (forall i, ~ In i ids -> NS.mem i (ms_mask ms') = NS.mem i (ms_mask ms)).
+
+Lemma mask_le_refl ids ms : mask_le ids ms ms.
+Proof. split; auto. Qed.
+
+Lemma mask_le_trans ids a b c : mask_le ids a b -> mask_le ids b c -> mask_le ids a c.
+Proof. intros [A1 A2] [B1 B2]. split; [auto|]. intros i Hi. rewrite B2, A2; auto. Qed.
+
+(* components are only ever removed, only those of the deleted entities, only
+   in storages of the table; if nothing panicked, all of them *)
+Lemma purge_masks ids tbl : forall stores G f, WJ P stores G -> f_pan f = false ->
+  let stores' := fst (purge_tbl_f stores tbl ids f) in
+  let f' := snd (purge_tbl_f stores tbl ids f) in
+  (exists G', WJ P stores' G') /\
+  (forall sid, match NM.find sid stores, NM.find sid stores' with
+               | Some ms, Some ms' => mask_le ids ms ms' /\ (~ In sid tbl -> ms' = ms)
+               | None, None => True
+               | _, _ => False
+               end) /\
+  (f_pan f' = false -> forall sid ms', In sid tbl -> NM.find sid stores' = Some ms' ->
+     forall i, In i ids -> NS.mem i (ms_mask ms') = false).
+Proof.
+  induction tbl as [|sid tbl IH]; intros stores G f HW Hp; cbn [purge_tbl_f].
+  - cbn [fst snd]. split; [eauto|]. split.
+    + intros sid. destruct (NM.find sid stores); [split; [apply mask_le_refl|reflexivity]|exact I].
+    + intros _ sid ms' [].
+  - rewrite Hp. destruct (NM.find sid stores) as [ms|] eqn:Hs.
+    + destruct (WJ_lookup P _ _ _ _ HW Hs) as [m [Hg HM]].
+      destruct (m_drop_all_f_spec P P_default ids ms m f HM Hp) as [m' [ds [I1 [I2 [I3 [I4 [I5 [I6 [I7 [I8 [I9 I10]]]]]]]]]]].
+      destruct (m_drop_all_f ms ids f) as [ms1 f1]. cbn [fst snd] in *.
+      assert (mask_le ids ms ms1) as Hle.
+      { split; intros i; rewrite (MP_keys _ _ _ I1), (MP_keys _ _ _ HM), I4.
+        - destruct (in_dec N.eq_dec i (map fst ds)); [discriminate|auto].
+        - intros Hn. destruct (in_dec N.eq_dec i (map fst ds)) as [Hin|]; [|reflexivity].
+          exfalso. apply Hn. apply in_map_iff in Hin. destruct Hin as [[j t] [E Hin]]. cbn [fst] in E. subst j. apply (I3 i t Hin). }
+      assert (WJ P (NM.add sid ms1 stores) (NM.add sid m' G)) as HW1.
+      { intros s. rewrite !find_add. destruct (N.eq_dec sid s); [assumption|apply HW]. }
+      destruct (f_pan f1) eqn:Hp1.
+      * rewrite purge_tbl_f_pan by assumption. cbn [fst snd]. split; [eauto|]. split; [|rewrite Hp1; discriminate].
+        intros s. rewrite find_add. destruct (N.eq_dec sid s) as [<-|Hne].
+        -- rewrite Hs. split; [assumption|]. intros Hn. exfalso. apply Hn. left. reflexivity.
+        -- destruct (NM.find s stores); [split; [apply mask_le_refl|reflexivity]|exact I].
+      * destruct (IH _ _ f1 HW1 Hp1) as [A [B C]]. cbn zeta in *. split; [assumption|]. split.
+        -- intros s. specialize (B s). rewrite find_add in B. destruct (N.eq_dec sid s) as [<-|Hne].
+           ++ rewrite Hs. destruct (NM.find sid (fst (purge_tbl_f (NM.add sid ms1 stores) tbl ids f1))) as [ms2|]; [|contradiction].
+              destruct B as [B1 B2]. split; [eapply mask_le_trans; eassumption|]. intros Hn. exfalso. apply Hn. left. reflexivity.
+           ++ destruct (NM.find s stores); [|assumption].
+              destruct (NM.find s (fst (purge_tbl_f (NM.add sid ms1 stores) tbl ids f1))); [|contradiction].
+              destruct B as [B1 B2]. split; [assumption|]. intros Hn. apply B2. intros Hin. apply Hn. right. assumption.
+        -- intros Hq s ms' [<-|Hin] Hf i Hi; [|apply (C Hq s ms' Hin Hf i Hi)].
+           destruct (in_dec N.eq_dec sid tbl) as [Hin|Hn]; [apply (C Hq sid ms' Hin Hf i Hi)|].
+           specialize (B sid). rewrite find_add in B. destruct (N.eq_dec sid sid); [|congruence]. rewrite Hf in B.
+           destruct B as [_ B2]. rewrite (B2 Hn). rewrite (MP_keys _ _ _ I1).
+           destruct (I6 eq_refl) as [I6a _]. rewrite (I6a i Hi). reflexivity.
+    + destruct (IH _ _ f HW Hp) as [A [B C]]. cbn zeta in *. split; [assumption|]. split.
+      * intros s. specialize (B s). destruct (NM.find s stores) eqn:E; [|assumption].
+        destruct (NM.find s (fst (purge_tbl_f stores tbl ids f))); [|contradiction].
+        destruct B as [B1 B2]. split; [assumption|]. intros Hn. apply B2. intros Hin. apply Hn. right. assumption.
+      * intros Hq s ms' [<-|Hin] Hf i Hi; [|apply (C Hq s ms' Hin Hf i Hi)].
+        specialize (B sid). rewrite Hs, Hf in B. contradiction.
+Qed.
+
+End Purge.
